@@ -68,15 +68,16 @@ def kernel_cases(ctx):
             x, y = x * 3, y * 3              # miss
         z = g.uni(-30, 5)
         dist.append([k, d[2], d[0], d[1], z, x, y, R])
-    yield 'std_distance', dist, {'scalars': ['self.k', 'self.radius']}
+    # (Python-float `radius**2` goes through libm pow: allow 1-2 ulp)
+    yield 'std_distance', dist, {'scalars': ['self.k', 'self.radius'], 'tol': 1e-14}
     sag = []
     for i in range(n):
         R = g.uni(5, 200) * g.r.choice([-1, 1])
         k = g.r.choice([0.0, -1.0, g.uni(-3, 2)])
         s = 1.5 if i % 9 == 0 else 0.7
         sag.append([g.uni(-s, s) * abs(R), g.uni(-s, s) * abs(R), R, k])
-    yield 'std_sag', sag, {'scalars': ['self.k', 'self.radius']}
-    yield 'std_normal', sag, {'scalars': ['self.k', 'self.radius']}
+    yield 'std_sag', sag, {'scalars': ['self.k', 'self.radius'], 'tol': 1e-15}
+    yield 'std_normal', sag, {'scalars': ['self.k', 'self.radius'], 'tol': 1e-15}
     pl = [[g.uni(-50, 50), g.unit3()[2]] for _ in range(n)] + [[1.0, 0.0], [0.0, 0.0], [-2.0, 0.0]]
     yield 'plane_distance', pl, {}
 
